@@ -57,6 +57,8 @@ pub trait SddBuilder<'a>: BottomUpBuilder<'a, SddPtr<'a>> {
             if let SddPtr::Var(_, polarity) = node[0].prime() {
                 if let SddPtr::Var(label, _) = node[1].prime() {
                     // this is a BDD
+                    #[cfg(rsdd_verif)]
+                    crate::verif::probe(crate::verif::Probe::SddUniqueOrBdd);
                     // this SDD may be unsorted, so extract the low and high value
                     // based on whether or not node[0]'s prime is negated
                     let low = if !polarity {
@@ -76,6 +78,8 @@ pub trait SddBuilder<'a>: BottomUpBuilder<'a, SddPtr<'a>> {
 
         node.sort_by_key(|a| a.prime());
         if node[0].sub().is_neg() || self.is_false(node[0].sub()) || node[0].sub().is_neg_var() {
+            #[cfg(rsdd_verif)]
+            crate::verif::probe(crate::verif::Probe::SddUniqueOrNegNormalise);
             for x in node.iter_mut() {
                 *x = SddAnd::new(x.prime(), x.sub().neg());
             }
@@ -97,6 +101,8 @@ pub trait SddBuilder<'a>: BottomUpBuilder<'a, SddPtr<'a>> {
         }
 
         if bdd.high().is_neg() || self.is_false(bdd.high()) || bdd.high().is_neg_var() {
+            #[cfg(rsdd_verif)]
+            crate::verif::probe(crate::verif::Probe::SddUniqueBddNegNormalise);
             let low = bdd.low().neg();
             let high = bdd.high().neg();
             let neg_bdd = BinarySDD::new(bdd.label(), low, high, bdd.index());
@@ -113,6 +119,8 @@ pub trait SddBuilder<'a>: BottomUpBuilder<'a, SddPtr<'a>> {
     fn and_indep(&'a self, a: SddPtr<'a>, b: SddPtr<'a>, lca: VTreeIndex) -> SddPtr<'a> {
         // check if this is a right-linear fragment and construct the relevant SDD type
         if self.vtree_manager().vtree(lca).is_right_linear() {
+            #[cfg(rsdd_verif)]
+            crate::verif::probe(crate::verif::Probe::SddAndIndepRightLinear);
             // a is a right-linear decision for b; construct a binary decision
             let bdd = match a {
                 SddPtr::Var(label, true) => BinarySDD::new(label, SddPtr::false_ptr(), b, lca),
@@ -220,6 +228,8 @@ pub trait SddBuilder<'a>: BottomUpBuilder<'a, SddPtr<'a>> {
                 // check if one of the nodes is true; if it is, we can
                 // return a `true` SddPtr here, for trimming
                 if self.is_true(p) && self.is_true(s) {
+                    #[cfg(rsdd_verif)]
+                    crate::verif::probe(crate::verif::Probe::SddTrimTrueExit);
                     let new_v = SddPtr::true_ptr();
                     return new_v;
                 }
@@ -270,6 +280,8 @@ pub trait SddBuilder<'a>: BottomUpBuilder<'a, SddPtr<'a>> {
             match eq_itm {
                 None => (),
                 Some(andb) => {
+                    #[cfg(rsdd_verif)]
+                    crate::verif::probe(crate::verif::Probe::SddEqualPrimeShortcut);
                     let s2 = if b.is_neg() {
                         andb.sub().neg()
                     } else {
@@ -294,6 +306,8 @@ pub trait SddBuilder<'a>: BottomUpBuilder<'a, SddPtr<'a>> {
                 // check if one of the nodes is true; if it is, we can
                 // return a `true` SddPtr here, for trimming
                 if self.is_true(p) && self.is_true(s) {
+                    #[cfg(rsdd_verif)]
+                    crate::verif::probe(crate::verif::Probe::SddTrimTrueExit);
                     let new_v = SddPtr::true_ptr();
                     return new_v;
                 }
@@ -302,6 +316,8 @@ pub trait SddBuilder<'a>: BottomUpBuilder<'a, SddPtr<'a>> {
                 // does we can stop early because the rest of the primes will be
                 // false
                 if self.eq(p1, p) {
+                    #[cfg(rsdd_verif)]
+                    crate::verif::probe(crate::verif::Probe::SddImplicationBreak);
                     break;
                 }
             }
@@ -461,6 +477,8 @@ where
 
         // check if we have this application cached
         if let Some(x) = self.app_cache_get(&SddAnd::new(a, b)) {
+            #[cfg(rsdd_verif)]
+            crate::verif::probe(crate::verif::Probe::SddAppCacheHit);
             return x;
         }
 
@@ -481,6 +499,16 @@ where
         // we can only conjoin two SDD nodes if they are normalized with respect
         // to the same vtree; the following code does this for each of the
         // above cases.
+        #[cfg(rsdd_verif)]
+        crate::verif::probe(if av == bv {
+            crate::verif::Probe::SddAndCartesian
+        } else if lca == av {
+            crate::verif::Probe::SddAndSubDesc
+        } else if lca == bv {
+            crate::verif::Probe::SddAndPrimeDesc
+        } else {
+            crate::verif::Probe::SddAndIndep
+        });
         let r = if av == bv {
             self.and_cartesian(a, b, lca)
         } else if lca == av {
@@ -558,6 +586,8 @@ where
 
         let hash = self.ite_cache_hash(&ite);
         if let Some(v) = self.ite_cache_get(ite, hash) {
+            #[cfg(rsdd_verif)]
+            crate::verif::probe(crate::verif::Probe::SddIteCacheHit);
             return v;
         }
 
